@@ -7,6 +7,9 @@ CHECKS = {
     'C11': dict(category='proof', design_ref='DESIGN.md §3 C11', technique=TECH,
                 text='Coordinate conversions (genomic<->gene<->transcript) proved against spec functions for all exon structures, positions and both strands; mutual inverses as lemmas over the contracts.',
                 note='Assumes well-formed exon lists (sorted, disjoint, non-adjacent: what sort_records/GTF give), Biopython location semantics; GTF text round trip and on-disk cache not yet under contract in this revision.'),
+    'C06': dict(category='proof', design_ref='DESIGN.md §3 C06', technique=TECH + '; labelled bounded paired runs for hash seed / worker purity',
+                text='The dispatch loop of the real call_variant_peptide is executed symbolically for all transcript counts, skip patterns and thread counts: every non-skipped transcript is gathered, batched and handed to caller_reducer exactly once and in order, nothing is pending at exit (inductive invariant + exit obligation).',
+                note='gather_data_for_call_variant, caller_reducer/ParallelPool.map and the peptide table are assumed contracts (uninterpreted d, r; order-preserving map). Hash-seed independence, worker purity, file layout/.idx/index-dir equivalence: bounded paired runs on the demo inputs only (evidence: coverage.bounded).'),
 }
 
 _PENDING = 'contracts for this property are not built yet in this revision (planned: see DESIGN.md §3); not claimed until they discharge'
